@@ -6,6 +6,7 @@ C11.adj      coder / noise / segments / network are adjacent in that order in al
 C11.enc      the cipher step is reachable only through YowNoiseLayer.send; its segment is written synchronously
 C11.frame    both writes of a frame happen in one invocation of the segments layer's send
 C11.once     each core layer's send forwards exactly once per call
+C11.disp     the asyncore dispatcher's out_buffer is only touched under one per-instance re-entrant lock (sender thread vs loop thread)
 C11.threads  thread entry points reach the wire only through the locked chain
 """
 import ast
@@ -179,6 +180,71 @@ def rule_once_frame(ctx):
     ctx.check("C11.once", ok, where(d.relpath, "AsyncoreConnectionDispatcher.sendData", sd.lineno), "out_buffer = out_buffer + data", "the dispatcher must append to its output buffer in call order", "appended in call order")
 
 
+def rule_disp(ctx):
+    """the asyncore dispatcher's output buffer is touched by two threads - the sender (sendData) and asyncore's loop
+    thread (handle_write -> initiate_send): lock-set fact: every statement of the class that reads or writes out_buffer,
+    and the base initiate_send that sends and truncates it, run under one per-instance re-entrant lock."""
+    repo = ctx.repo
+    rel = "yowsup/layers/network/dispatcher/dispatcher_asyncore.py"
+    d = repo.cls(rel, "AsyncoreConnectionDispatcher")
+    w = where(rel, "AsyncoreConnectionDispatcher", None)
+
+    def lock_of(fn, pred):
+        """lock expression L such that every node matching pred lies inside `with L:`; None if some node is unguarded"""
+        locks = set()
+        hit = False
+
+        def walk(stmts, held):
+            nonlocal hit
+            for st in stmts:
+                if isinstance(st, ast.With):
+                    h2 = held + [unparse(it.context_expr) for it in st.items]
+                    walk(st.body, h2)
+                    continue
+                own = [st] if not hasattr(st, "body") else []
+                for sub in ("body", "orelse", "finalbody", "handlers"):
+                    blk = getattr(st, sub, None)
+                    if isinstance(blk, list):
+                        walk([x for x in blk if isinstance(x, ast.stmt)] + [y for x in blk if isinstance(x, ast.ExceptHandler) for y in x.body], held)
+                for x in own:
+                    if any(pred(n) for n in ast.walk(x)):
+                        hit = True
+                        locks.add(tuple(held))
+        walk(fn.body, [])
+        if not hit:
+            return "absent", None
+        common = set.intersection(*[set(l) for l in locks]) if locks else set()
+        return ("ok", sorted(common)[0]) if common else ("unguarded", None)
+    touches = lambda n: isinstance(n, ast.Attribute) and n.attr == "out_buffer" and isinstance(n.value, ast.Name) and n.value.id == "self"
+    guards = {}
+    for name, fn in d.methods.items():
+        st, L = lock_of(fn, touches)
+        if st == "absent":
+            continue
+        guards[name] = L
+        ctx.check("C11.disp", st == "ok", where(rel, "AsyncoreConnectionDispatcher." + name, fn.lineno), "out_buffer accessed in " + name,
+                  "out_buffer is read / written here without the send lock while asyncore's loop thread sends and truncates it in initiate_send: the same bytes can reach the socket twice, or be dropped",
+                  "under %s" % L)
+    init_send = d.methods.get("initiate_send")
+    base_call = lambda n: isinstance(n, ast.Call) and isinstance(n.func, ast.Attribute) and n.func.attr == "initiate_send" and not (isinstance(n.func.value, ast.Name) and n.func.value.id == "self")
+    if init_send is None:
+        ctx.violate("C11.disp", w, "initiate_send not overridden", "asyncore's loop thread calls handle_write -> initiate_send, which sends and truncates out_buffer with no lock: it has to be overridden to take the lock sendData holds")
+        return
+    st, L2 = lock_of(init_send, base_call)
+    locks = set(guards.values()) | {L2}
+    ctx.check("C11.disp", st == "ok" and len(locks) == 1 and None not in locks, where(rel, "AsyncoreConnectionDispatcher.initiate_send", init_send.lineno), "initiate_send (loop thread) under the same lock",
+              "the base initiate_send must run under the same lock as sendData's append (found %s vs %s)" % (L2, sorted(x for x in guards.values() if x)), "one lock: %s" % L2)
+    # the lock is per instance and re-entrant (sendData calls initiate_send while holding it)
+    from ..state import bound_in_init
+    b = bound_in_init(repo, d)
+    attr = (L2 or "self.?").split(".", 1)[-1]
+    val = b.get(repo.mangle(d.name, attr), (None, None))[1]
+    nested = any(isinstance(n, ast.Call) and is_self_attr(n.func, "initiate_send") for name, fn in d.methods.items() if guards.get(name) for n in ast.walk(fn))
+    ok = val is not None and isinstance(val, ast.Call) and unparse(val.func).split(".")[-1] in (("RLock",) if nested else ("RLock", "Lock"))
+    ctx.check("C11.disp", ok, w, "send lock bound per instance%s" % (", re-entrant" if nested else ""),
+              "the send lock must be created per dispatcher in __init__ and be re-entrant when sendData calls initiate_send while holding it (found %s)" % (unparse(val) if val is not None else None), "threading.%s() per instance" % (unparse(val.func).split(".")[-1] if ok else "?"))
+
+
 def rule_threads(ctx):
     repo = ctx.repo
     threads = []
@@ -216,12 +282,14 @@ def run(ctx):
     ctx.rule("C11.enc", "single synchronous cipher path", floor=3)
     ctx.rule("C11.frame", "header and payload in one invocation", floor=2)
     ctx.rule("C11.once", "each core layer forwards once", floor=4)
+    ctx.rule("C11.disp", "dispatcher output buffer: one lock for the sender thread and the asyncore loop thread", floor=3)
     ctx.rule("C11.threads", "thread entry points use the locked chain", floor=3)
-    ctx.assume("consonance's write_segment calls back synchronously; asyncore's buffer preserves append order")
+    ctx.assume("consonance's write_segment calls back synchronously; asyncore's initiate_send sends a prefix of out_buffer and removes exactly what was sent")
     ctx.guarded("C11.hoh", rule_hoh, ctx)
     full = ctx.guarded("C11.adj", rule_adj, ctx)
     if full:
         ctx.guarded("C11.only", rule_only, ctx, full)
     ctx.guarded("C11.enc", rule_enc, ctx)
     ctx.guarded("C11.once", rule_once_frame, ctx)
+    ctx.guarded("C11.disp", rule_disp, ctx)
     ctx.guarded("C11.threads", rule_threads, ctx)
